@@ -4,6 +4,7 @@ import (
 	"fmt"
 	"image/color"
 	"math"
+	"os"
 
 	"verif/engine/ev"
 )
@@ -171,5 +172,10 @@ func C01(tier string) {
 		}
 	}
 	r.Set("passes", 2)
+	if os.Getenv("VERIF_SUBRUN") == "" {
+		for _, gmp := range []string{"1", "3", "7"} {
+			subRun(r, "C01", tier, "GOMAXPROCS="+gmp, "GOMAXPROCS="+gmp)
+		}
+	}
 	r.Finish()
 }
